@@ -289,7 +289,7 @@ PROPERTIES = {
                  "spawn bursts of N tasks that yield k times and optionally sleep to a common deadline (timer wake-up of N tasks at once), notify_waiters "
                  "broadcasts to N waiting tasks, wake chains of depth <= 2000 through oneshot / mpsc / semaphore / join handles (a third of them alternating between tokio::spawn and spawn_local tasks), one task draining up to 10000 "
                  "channel items in one instant (tokio coop budget), N tasks woken by a processing element that consumes the trigger message (the handler never runs "
-                 "in that event), a handler that fires its trigger and requests the shutdown of its module in the same event, 1..8 tasks awaiting timeout(1 ms / 1 s / 7 s, oneshot) that a sibling task answers in the same event (the timeout's timer is armed and disarmed within one instant) and then sleeping 1 ms..10 s, 1..6 tasks holding an idle timer (pinned sleep) that is re-armed 1..3 times within one event to the deadline it is already registered for, and (one trigger in 300) a single task that stays runnable for 300000..600000 polls within one instant (the executor then needs a noticeable amount of wall-clock time; only virtual time may decide when the task continues); N in {1,2,60,61,62,122,123,200,1000,5000}; each with tokio::spawn and with spawn_local "
+                 "in that event), a handler that fires its trigger and requests the shutdown of its module in the same event, 1..8 tasks awaiting timeout(1 ms / 1 s / 7 s, oneshot) that a sibling task answers in the same event (the timeout's timer is armed and disarmed within one instant) and then sleeping 1 ms..10 s, 1..6 tasks holding an idle timer (pinned sleep) that is re-armed 1..3 times within one event to the deadline it is already registered for, 1..6 tasks holding two sleeps with the same deadline of which the first registered is dropped and the other awaited, and (one trigger in 300) a single task that stays runnable for 300000..600000 polls within one instant (the executor then needs a noticeable amount of wall-clock time; only virtual time may decide when the task continues); N in {1,2,60,61,62,122,123,200,1000,5000}; each with tokio::spawn and with spawn_local "
                  "(every tenth case: spawn_local work needing more than one LocalSet turn of 61 polls). Every task logs SimTime::now() after each await; the "
                  "instant its condition became true is known by construction; a later sentinel event of the module makes stranded work visible. Oracle: "
                  "logged now == enabling instant for every wake-up, every task finished at the end. Non-trivial = case with an instant needing > 61 polls; "
@@ -304,11 +304,13 @@ PROPERTIES = {
                       "scenarios_notify_broadcast": 500, "scenarios_channel_drain": 500, "scenarios_spawn_burst": 1500,
                       "scenarios_message_consumed_by_processing_element": 500,
                       "scenarios_timeout_answered_within_the_instant_then_sleep": 800,
-                      "scenarios_sleep_rearmed_to_its_own_deadline": 700, "scenarios_one_task_runnable_for_over_300000_polls": 10},
+                      "scenarios_sleep_rearmed_to_its_own_deadline": 700, "scenarios_one_task_runnable_for_over_300000_polls": 10,
+                      "scenarios_twin_timers_first_dropped": 600},
             "thorough": {"wakeups_observed": 100000000, "instants_needing_more_than_61_polls": 60000, "instants_needing_more_than_122_polls": 40000,
                          "scenarios_with_spawn_local": 30000, "spawn_local_over_budget_cases": 6000,
                          "scenarios_timeout_answered_within_the_instant_then_sleep": 15000,
-                         "scenarios_sleep_rearmed_to_its_own_deadline": 12000, "scenarios_one_task_runnable_for_over_300000_polls": 200},
+                         "scenarios_sleep_rearmed_to_its_own_deadline": 12000, "scenarios_one_task_runnable_for_over_300000_polls": 200,
+                         "scenarios_twin_timers_first_dropped": 10000},
         },
     },
     "C09": {
